@@ -185,6 +185,7 @@ class World:
         self.live_generators = 0
         self.read_log: dict[int, list] = {}
         self.fsm_hooks: list = []
+        self.at_end: list = []  # called at the end of the run, before the reactor is asked to shut down
         self.tx_states: list[tuple] = []  # (cid, mono, nbytes, fsm state of the owning peer at write time)
         self.generators_started = 0
         self.ended: str | None = None
@@ -463,6 +464,8 @@ class World:
         asyncio.set_event_loop(self.loop)
 
         def stop() -> None:
+            for fn in self.at_end:
+                fn()
             self.rec('sim-shutdown-request')
             self.signal('SHUTDOWN')
 
